@@ -894,7 +894,16 @@ pub fn run_c09(ctx: &Ctx, prop: &str) -> Result<(), String> {
 
 fn go_session(ctx: &Ctx, idx: usize, seeds: &[String], prop: &str) {
     let mut rng = Rng::derive(ctx.seed, if prop == "C09" { 0xC09_0000 } else { 0xC14_0000 } + idx as u64);
-    let Some(mut e) = spawn(ctx, &[]) else { return };
+    // one session in four runs with a short sleep at one labelled point of the engine (between the
+    // bestmove line and the end of the search thread, or just after the thread was started), so
+    // that the GUI's next command meets the engine in a state it otherwise passes in microseconds
+    let mut env: Vec<(String, String)> = Vec::new();
+    if idx % 4 == 3 {
+        let point = ["search.post_bestmove=sleep:200", "search.exit=sleep:200", "search.pre_bestmove=sleep:8", "uci.go.spawned=sleep:5", "search.enter=sleep:8"][(idx / 4) % 5];
+        env.push(("RCE_VERIF_SCHED".to_string(), point.to_string()));
+        out::count("C09.sessions_with_a_widened_window", 1);
+    }
+    let Some(mut e) = spawn(ctx, &env) else { return };
     let mut g = random_game(&mut rng, seeds, 30, true);
     if idx % 6 == 5 {
         // tense full-board positions (long capture chains), at most two moves in
